@@ -76,8 +76,10 @@ def findClosest (cfg : Config) (pop : List FileRec) (t : Nat) (filters : Option 
             | some f => .ok f
             | none => .error .noFiles      -- unreachable: files is not empty
 
-/-- single-file fileset: the one file, whatever `t` is; `ValueError` when it does not exist -/
-def closestSingle (isfile : Bool) : Except Err Unit :=
-  if isfile then .ok () else .error .valueError
+/-- single-file fileset (`file` = its path): the one file, whatever `t` and the filters are;
+`ValueError` when it does not exist -/
+def closestSingle {α : Type} (isfile : Bool) (file : α) (_t : Nat) (_filters : Option Filters) :
+    Except Err α :=
+  if isfile then .ok file else .error .valueError
 
 end FS
